@@ -329,7 +329,7 @@ theorem decode_acct : (t : Ty) → ∀ (path : Path) (sel : Option Int) (s : St)
     split
     · split
       · exact acct_error _ _
-      · exact acct_crash _ _ _
+      · exact acct_error _ _
     · exact arm_acct arms name _ path _
   | .bad r, path, sel, s => by simp only [decode]; exact acct_crash s _ _
 
